@@ -13,10 +13,12 @@
                 Fruchterman-Reingold return finite positions in which bonded nodes do not coincide (so the
                 pre-scale mean is non-zero); numpy's norm is within one ulp of sqrt(dx*dx+dy*dy); the numpy
                 rotation is an isometry up to rounding; finiteness of IEEE results.
-    Axioms: ONLY [C19_rescale_mean*] and [C19_mean_nonzero] (square roots over the standard-library reals). *)
+    Axioms: ONLY [C19_rescale_mean*], [C19_mean_nonzero], [C19_returned_mean], [C19_returned_distinct],
+    [C19_tail_bond_len], [C19_tail_mean] (square roots over the standard-library reals). *)
 From Coq Require Import List ZArith Bool QArith Reals.
 From CGV Require Import Base.PyBase Geom.Num Gen.GeomGen Geom.IndexMap Geom.Scale Geom.Rotate
-     Geom.ScaleProofs Geom.ScaleProofsR Geom.RotateProofs Geom.CisTrans Geom.CisTransProofs.
+     Geom.ScaleProofs Geom.ScaleProofsR Geom.RotateProofs Geom.CisTrans Geom.CisTransProofs
+     Geom.Tail Geom.TailProofs Geom.TailProofsR.
 Import ListNotations.
 
 (** exactly the keys of the pre-scale dict, in the same order: one position per node *)
@@ -97,6 +99,47 @@ Theorem C19_fix_preserves_bonds : forall {P D : Type} (dist : P -> P -> D) (rotf
     forall e, In e edges -> dist (pts' (fst e)) (pts' (snd e)) = dist (pts (fst e)) (pts (snd e)).
 Proof. exact @fix_preserves_bonds. Qed.
 
+(** ---------- the END of vespr_layout: everything between `pos = check_and_fix_cis_trans(graph, pos)` and `return pos`.
+    [gen_vespr_tail] is the GENERATED list of steps (alignment blocks and the rescale; tools/gen_geom.py refuses any other
+    statement there), [vespr_tail] runs it on the dict, [al] = cos/sin of the alignment angle (None: align_with is None).
+    The statements are about the RETURNED positions. *)
+Theorem C19_returned_one_position_per_node : forall {M} (o : numops M) sq d al db edges (pos : list (Z * @vec2 M)),
+  map fst (vespr_tail o sq d al db edges pos) = map fst pos.
+Proof. exact @vespr_returned_keys. Qed.
+Theorem C19_returned_mean : forall d al db edges (pos : list (Z * @vec2 R)) d',
+  keys_cover edges pos -> al_ok al -> (0 <= db)%R -> mean_bond numR sqrt (fun k => plookup d k pos) edges <> 0%R ->
+  mean_bond numR sqrt (fun k => plookup d' k (vespr_tail numR sqrt d al db edges pos)) edges = db.
+Proof. exact vespr_returned_mean. Qed.
+Theorem C19_returned_distinct : forall d al db edges (pos : list (Z * @vec2 R)) d' e,
+  keys_cover edges pos -> al_ok al -> (0 < db)%R -> In e edges ->
+  plookup d (fst e) pos <> plookup d (snd e) pos ->
+  plookup d' (fst e) (vespr_tail numR sqrt d al db edges pos) <> plookup d' (snd e) (vespr_tail numR sqrt d al db edges pos).
+Proof. exact vespr_returned_distinct. Qed.
+(** for ANY list of steps with exactly one rescale (whatever alignments precede or FOLLOW it): every bond length of the
+    result is default_bond / mean times the length before the tail, so the mean established by the rescale is preserved
+    by everything that follows *)
+Theorem C19_tail_bond_len : forall al db edges steps (pf : Z -> @vec2 R) e,
+  tail_ok steps = true -> al_ok al -> (0 <= db)%R -> mean_bond numR sqrt pf edges <> 0%R ->
+  bond_len numR sqrt (run_tailf numR sqrt al db edges steps pf) e
+  = (db / mean_bond numR sqrt pf edges * bond_len numR sqrt pf e)%R.
+Proof. exact tail_bond_len. Qed.
+Theorem C19_tail_mean : forall al db edges steps (pf : Z -> @vec2 R),
+  tail_ok steps = true -> al_ok al -> (0 <= db)%R -> mean_bond numR sqrt pf edges <> 0%R ->
+  mean_bond numR sqrt (run_tailf numR sqrt al db edges steps pf) edges = db.
+Proof. exact tail_mean. Qed.
+Theorem C19_generated_tail_has_one_rescale : tail_ok gen_vespr_tail = true.
+Proof. exact gen_tail_ok. Qed.
+(** dict and position function agree on every key; relabelling by an injective map commutes with the whole tail *)
+Theorem C19_tail_dict_fun : forall {M} (o : numops M) sq d al db edges steps (pos : list (Z * @vec2 M)) d' k,
+  keys_cover edges pos -> In k (map fst pos) ->
+  plookup d' k (run_tail o sq d al db edges steps pos) = run_tailf o sq al db edges steps (fun k => plookup d k pos) k.
+Proof. exact @tail_dict_fun. Qed.
+Theorem C19_tail_relabel : forall {M} (o : numops M) sq (f : Z -> Z) d al db edges steps (pos : list (Z * @vec2 M)),
+  (forall a b, f a = f b -> a = b) ->
+  run_tail o sq d al db (relabel_edges f edges) steps (relabel_pos f pos)
+  = relabel_pos f (run_tail o sq d al db edges steps pos).
+Proof. exact @tail_relabel. Qed.
+
 (** ---------- non-vacuity *)
 Example C19_nonvacuous_fix :
   let edges := [(0, 1); (1, 2); (2, 3)]%Z in
@@ -104,6 +147,12 @@ Example C19_nonvacuous_fix :
   exists pts', check_and_fix_cis_trans (fun _ _ _ o p => 2 * o - p)%Z edges [it] [false] [[[0]; [1; 2; 3]]]%Z (fun k => 10 * k)%Z
                = Ok (pts', [(1, 0, 120, [0])]%Z) /\ pts' 0%Z = 20%Z /\ call_contract edges (1, 0, 120, [0])%Z.
 Proof. exact (let '(ex_intro _ p (conj a (conj b (conj _ d)))) := fix_nonvacuous in ex_intro _ p (conj a (conj b d))). Qed.
+Example C19_nonvacuous_tail :
+  let pos := [(0%Z, (0, 0)%R); (1%Z, (3, 4)%R)] in
+  keys_cover [(0, 1)%Z] pos /\ al_ok (Some (0, 1)%R) /\ (0 < 2)%R /\
+  mean_bond numR sqrt (fun k => plookup (0, 0)%R k pos) [(0, 1)%Z] <> 0%R /\
+  plookup (0, 0)%R 0%Z pos <> plookup (0, 0)%R 1%Z pos /\ tail_ok [TAlign; TRescale; TAlign] = true.
+Proof. exact tail_nonvacuous. Qed.
 Example C19_nonvacuous_mean :
   let posf := fun k : Z => if Z.eqb k 0 then (0, 0)%R else (3, 4)%R in
   mean_bond numR sqrt posf [(0, 1)%Z] <> 0%R /\ (0 <= 2)%R.
@@ -136,3 +185,11 @@ Print Assumptions C19_rotate_moves_only_component.
 Print Assumptions C19_fix_rotates_only_about_edges.
 Print Assumptions C19_fix_fails_off_edge.
 Print Assumptions C19_fix_preserves_bonds.
+Print Assumptions C19_returned_one_position_per_node.
+Print Assumptions C19_returned_mean.
+Print Assumptions C19_returned_distinct.
+Print Assumptions C19_tail_bond_len.
+Print Assumptions C19_tail_mean.
+Print Assumptions C19_generated_tail_has_one_rescale.
+Print Assumptions C19_tail_dict_fun.
+Print Assumptions C19_tail_relabel.
